@@ -86,10 +86,19 @@ Call(s) ==
           /\ skipOK' = (skipOK /\ (c[2] \/ \E x \in admitted[s] : x[1] = n /\ x[2] = a))
     /\ UNCHANGED <<adm, flow, name, ver>>
 
-Reload(n) == /\ ver[n] < MaxVer /\ ver' = [ver EXCEPT ![n] = @ + 1]
-             /\ UNCHANGED <<adm, flow, name, pc, admitted, snap, att, attVer, skipOK>>
+\* a reload of the configuration of n lands between two calls. What it does to the configuration in force:
+\*   same    nothing (another entry changed)
+\*   nonhot  a field of n's entry that cannot be hot-reloaded changed (maxReaders, source, ...)
+\*   hot     ONLY a hot-reloadable field of n's entry changed (record*, forward, rpiCamera*)
+\*   rehome  n now resolves to a different entry (a new exact entry shadows the regex / all_others
+\*           entry) that is identical except for its name
+\* "still the one in force" is equality: every kind but "same" gives n another configuration.
+ReloadKinds == {"same", "nonhot", "hot", "rehome"}
+Reload(n, k) == /\ k \in ReloadKinds /\ ver[n] < MaxVer
+                /\ ver' = [ver EXCEPT ![n] = IF k = "same" THEN @ ELSE @ + 1]
+                /\ UNCHANGED <<adm, flow, name, pc, admitted, snap, att, attVer, skipOK>>
 
-Next == (\E s \in Sessions : Call(s)) \/ (\E n \in Names : Reload(n))
+Next == (\E s \in Sessions : Call(s)) \/ (\E n \in Names, k \in ReloadKinds : Reload(n, k))
 Spec == Init /\ [][Next]_vars
 
 \* ------------------------------------------------------------------ layer 2 on the model
@@ -122,7 +131,9 @@ OracleAdmit(action, cls, user, pass, ip) ==
                   u.user = "any", u.user = user /\ u.pass = pass)
 
 \* r: [proto, action, name, cls, user, pass, ip, events, attached]
-\*   events: <<[op |-> "auth", action, path, user, pass, ip, ok]>> | [op |-> "reload", changes (the conf of r.name)]
+\*   events: <<[op |-> "auth", action, path, user, pass, ip, ok]>> | [op |-> "reload", changes]
+\*   changes = the configuration the real path manager resolves r.name to after the reload differs from the
+\*   one before it (both obtained from the path manager itself, compared field by field by the harness)
 \*   in the order they happened before the attachment was looked up
 Qualifies(r, e) == e.op = "auth" /\ e.ok /\ e.action = r.action /\ e.path = r.name
                    /\ e.user = r.user /\ e.pass = r.pass /\ e.ip = r.ip
@@ -142,17 +153,23 @@ AnswersAgree(r) ==
 \* layer 1's prediction of the outcome
 ExpectAttached(r) ==
     /\ OracleAdmit(r.action, r.cls, r.user, r.pass, r.ip)
-    /\ ~(r.action = "publish" /\ r.reload = "change")
+    /\ ~(r.action = "publish" /\ r.reload \in {"nonhot", "hot", "rehome"})
+\* layer 1's prediction of what a reload of that kind does to the configuration in force
+ReloadsAsExpected(r) ==
+    \A i \in 1..Len(r.events) : r.events[i].op = "reload" /\ ~r.events[i].prep =>
+        r.events[i].changes = (r.reload \in {"nonhot", "hot", "rehome"})
 
 \* generator: the scenario space
-Protos == {"rtsp", "rtmp", "srt", "hls"}
+\* pm: the harness calls the path manager directly (FindPathConf, then AddPublisher with ConfToCompare and skipAuth)
+Protos == {"rtsp", "rtmp", "srt", "hls", "pm"}
 CredTok == {"alice", "puba", "reader", "dave", "bad", "none"}
 UserOf(c) == IF c = "none" THEN "" ELSE IF c = "bad" THEN "alice" ELSE c
 PassOf(c) == IF c = "none" THEN "" ELSE IF c = "bad" THEN "wrong" ELSE "pw"
 Scenarios ==
     {x \in [proto : Protos, action : Actions, cred : CredTok, cls : {"a", "b"},
-            reload : {"none", "other", "change"}, ip : {"127.0.0.1", "10.0.0.5", "10.0.0.50", "10.0.1.5"}] :
+            reload : {"none", "other", "nonhot", "hot", "rehome"}, ip : {"127.0.0.1", "10.0.0.5", "10.0.0.50", "10.0.1.5"}] :
         /\ (x.proto = "hls" => x.action = "read")
+        /\ (x.proto = "pm" => x.action = "publish")
         /\ (x.proto # "hls" => x.ip = "127.0.0.1")         \* only HTTP protocols sit behind the trusted proxy
         /\ (x.proto = "hls" => x.ip # "127.0.0.1")
         /\ (x.action = "read" => x.reload = "none")}
